@@ -240,6 +240,7 @@ func runC13Client(rcx *RunCtx) {
 				// (no error): whatever the client does next still fits msize
 				nwrites++
 				if nwrites == shortWrite && len(m.Data) > 1 {
+					simrt.Fault("server.short-count")
 					return &rc.Rwrite{Count: uint32(1 + len(m.Data)/3)}
 				}
 			case *rc.Tread:
